@@ -50,6 +50,9 @@ pub struct ParWorkload {
     pub max_threads: usize,
     pub min_rules_per_thread: usize,
     pub enabled: bool,
+    /// configuration swarm: (dependency_analysis, debug_mode argument of execute_parallel)
+    #[serde(default)]
+    pub cfg: (bool, bool),
 }
 
 fn fname(f: u8) -> String {
@@ -147,7 +150,7 @@ fn build_facts(w: &ParWorkload) -> Facts {
 }
 
 fn engine(w: &ParWorkload, enabled: bool) -> ParallelRuleEngine {
-    let mut e = ParallelRuleEngine::new(ParallelConfig { enabled, max_threads: w.max_threads.max(1), min_rules_per_thread: w.min_rules_per_thread.max(1), dependency_analysis: false });
+    let mut e = ParallelRuleEngine::new(ParallelConfig { enabled, max_threads: w.max_threads.max(1), min_rules_per_thread: w.min_rules_per_thread.max(1), dependency_analysis: w.cfg.0 });
     e.register_function("isPos", |args: &[Value], _f: &Facts| {
         Ok(Value::Boolean(match args.first() {
             Some(Value::Integer(i)) => *i > 0,
@@ -182,7 +185,7 @@ pub fn scenario(w: &ParWorkload, slot: &Shared) {
     let kb = build_kb(w);
     let facts = build_facts(w);
     let before = facts.get_all_facts();
-    let result = match engine(w, w.enabled).execute_parallel(&kb, &facts, false) {
+    let result = match engine(w, w.enabled).execute_parallel(&kb, &facts, w.cfg.1) {
         Ok(r) => r,
         Err(e) => fail(slot, "par.returns", "execute-parallel-returned-error", format!("execute_parallel returned an error: {e}")),
     };
@@ -323,6 +326,7 @@ pub fn generate(rng: &mut Rng, _thorough: bool) -> ParWorkload {
         max_threads: 1 + rng.usize(16),
         min_rules_per_thread: 1 + rng.usize(4),
         enabled: !rng.chance(1, 6),
+        cfg: (rng.chance(1, 2), rng.chance(1, 10)),
     }
 }
 
